@@ -58,6 +58,7 @@ from bounded.c05 import guarded, budget, guarded_map, KILLED
 
 import sqlglot
 from sqlglot import errors as E
+from sqlglot import exp
 from sqlglot.dialects.dialect import Dialect
 from sqlglot.errors import ErrorLevel
 from sqlglot.parser import Parser
@@ -189,28 +190,41 @@ def _norm_repr(tree):
     return _ADDR.sub(" at 0x?", repr(tree))
 
 
-def _run_parse(sql, dialect, level, ntok, max_errors=3):
+def _run_parse(sql, dialect, level, ntok, max_errors=3, into=None):
     CAP.clear()
     _CE.calls = 0
     _CE.collected = []
     _CE.raised = None
-    st, val = guarded(
-        lambda: sqlglot.parse(sql, read=dialect or None, error_level=ErrorLevel[level], max_errors=max_errors),
-        budget(ntok), 2 * budget(len(sql)),
-    )
+    if into:
+        types = [getattr(exp, n) for n in into]
+        call = lambda: Dialect.get_or_raise(dialect or None).parse_into(types if len(types) > 1 else types[0], sql, error_level=ErrorLevel[level], max_errors=max_errors)  # noqa: E731
+    else:
+        call = lambda: sqlglot.parse(sql, read=dialect or None, error_level=ErrorLevel[level], max_errors=max_errors)  # noqa: E731
+    st, val = guarded(call, budget(ntok), 2 * budget(len(sql)))
     return st, val, list(CAP.parse_records), (_CE.collected[0] if _CE.collected else "none"), (_CE.raised or "none")
 
 
 def check_parse(item):
-    """item = ("p", sql, dialect) -> (status, n_real_calls, violations)   status in nontrivial|clean|tokenerror|skipped"""
-    _, sql, dialect = item
+    """item = ("p", sql, dialect) | ("pi", sql, dialect, (type names)) -> (status, n_real_calls, violations)
+    status in nontrivial|clean|tokenerror|skipped.  "pi" = the same relation for Dialect.parse_into (what parse_one(into=...) runs)."""
+    sql, dialect = item[1], item[2]
+    into = tuple(item[3]) if item[0] == "pi" else None
     _arm_logging()
     d = Dialect.get_or_raise(dialect or None)
     viol = []
     inp = {"kind": "parse", "sql": sql, "dialect": dialect}
+    if into:
+        inp["into"] = list(into)
+    fam = ("parse-into-list" if len(into) > 1 else "parse-into") if into else "parse"
 
     def V(clause, what, **extra):
-        viol.append((f"c14:parse:{clause}", what, dict(inp, **extra)))
+        if into and clause in ("message-max", "immediate-first:message"):
+            # parse_into wraps the raised errors in "Failed to parse '<sql>' into <type>": none of them is rendered in the message
+            # (the property bounds the rendered errors from above); the collected errors themselves are compared by the other clauses
+            return
+        if fam == "parse-into-list":
+            clause = ":".join(clause.split(":")[:2])  # with several candidate types the raising function depends on the candidate
+        viol.append((f"c14:{fam}:{clause}", what, dict(inp, **extra)))
 
     st, toks = guarded(lambda: d.tokenize(sql), 1 << 62, budget(len(sql)))
     if st == "hang" or (st == "exc" and not isinstance(toks, E.TokenError)):
@@ -220,7 +234,7 @@ def check_parse(item):
     runs = {}
     for name, level, mx in (("IGNORE", "IGNORE", 3), ("WARN", "WARN", 3), ("RAISE1", "RAISE", 1), ("RAISE3", "RAISE", 3),
                             ("IMMEDIATE", "IMMEDIATE", 3)):
-        r = _run_parse(sql, dialect, level, ntok, mx)
+        r = _run_parse(sql, dialect, level, ntok, mx, into)
         if r[0] == "hang":
             return "skipped", 1 + len(runs) + 1, [], 0
         if r[0] == "exc" and not isinstance(r[1], (E.ParseError, E.TokenError)):
@@ -457,7 +471,7 @@ def check_reuse(item):
 
 
 def check_item(item):
-    if item[0] == "p":
+    if item[0] in ("p", "pi"):
         return [check_parse(item)]
     if item[0] == "r":
         return check_reuse(item)
@@ -487,7 +501,17 @@ GEN_EXTRA = [
     "SELECT a FROM (WITH u AS (SELECT a FROM t) SELECT a FROM u) AS s WHERE a IN (WITH v AS (SELECT 1 AS a) SELECT a FROM v)",
     "SELECT a FROM t WHERE a AND NOT b OR (SELECT c FROM u)",
     "SELECT CASE WHEN a THEN 1 ELSE 0 END, IF(b, 1, 2) FROM t WHERE x",
+    # a construct many targets do not support, generated BEFORE a node whose generator method renders a nested tree
+    # (Snowflake's IDENTIFIER('<name>') is re-parsed and rendered; string-typed JSON paths, formats)
+    "SELECT ARRAY_CONSTRUCT(1, 2) AS a, x AT TIME ZONE 'UTC' AS ts FROM IDENTIFIER('db.t')",
+    "SELECT APPROX_PERCENTILE(a, 0.5) AS p, IDENTIFIER('t.c') FROM t QUALIFY ROW_NUMBER() OVER (PARTITION BY a ORDER BY b NULLS LAST) = 1",
 ]
+
+
+INTO_INPUTS = ["1 + 2", "a.b", "t AS x", "SELECT a FROM t", "SELECT a FROM", "x IN (1, 2", "db.t(a)", "INT", "ARRAY<INT", "a, b", "f(a) OVER (", "",
+               "JOIN u ON a = b", "WHERE a >", "ORDER BY a DESC NULLS", "(SELECT 1) AS s", "a = 1 AND", "CASE WHEN a THEN 1"]
+INTO_TYPES = [("Table",), ("Condition",), ("Column",), ("DataType",), ("Select",), ("Join",), ("Where",), ("Order",), ("Identifier",),
+              ("Table", "Condition"), ("Condition", "Table"), ("DataType", "Column"), ("Select", "Table", "Condition"), ("Join", "Where", "Order")]
 
 
 def _broken(s):
@@ -551,6 +575,10 @@ def items_for(tier):
     stats["mutations"] = len(b)
     stats["keyword_soups"] = len(sp)
     stats["scripts"] = len(sc)
+    # Dialect.parse_into (parse_one(into=...)): one target type, and lists of candidate types tried in turn
+    pi = [("pi", x, d_, into) for x in INTO_INPUTS for d_ in ("", "bigquery", "snowflake") for into in INTO_TYPES]
+    stats["parse_into"] = len(pi)
+    b = b + pi
     g = [("g", s, a_, tuple(gtgt)) for s in corpus.STATEMENTS + GEN_EXTRA for a_ in gsrc]
     stats["gen_statement_x_source"] = len(g)
     stats["gen_targets"] = len(gtgt)
@@ -580,7 +608,7 @@ def run(tier, seed):
     relog = 0
     evals = 0
     for item, rs in zip(work, res):
-        fam = "parse" if item[0] == "p" else "gen"
+        fam = "parse" if item[0] in ("p", "pi") else "gen"
         if rs == KILLED:
             status[fam]["killed"] = status[fam].get("killed", 0) + 1
             continue
@@ -632,6 +660,8 @@ def replay(entry):
     inp = entry["input"]
     if inp.get("kind") == "gen":
         item = ("g", inp["sql"], inp.get("dialect", ""), (inp.get("target", ""),))
+    elif inp.get("into"):
+        item = ("pi", inp["sql"], inp.get("dialect", ""), tuple(inp["into"]))
     else:
         item = ("p", inp["sql"], inp.get("dialect", ""))
     rs = guarded_map(_replay_job, [item], batch=1, workers=1)[0]
